@@ -1,5 +1,5 @@
 use crate::delta::{DiffType, InMergeConflict, MergeParents, State, StateMachine};
-use crate::handlers::diff_header::{get_repeated_file_path_from_diff_line, FileEvent};
+use crate::handlers::diff_header::FileEvent;
 
 impl StateMachine<'_> {
     #[inline]
@@ -32,7 +32,7 @@ impl StateMachine<'_> {
         // But for modified binary files which are not added, removed or renamed, there
         // are no minus and plus lines. Without the code below, in such cases the file names
         // would remain unchanged from the previous diff, or empty for the very first diff.
-        let name = get_repeated_file_path_from_diff_line(&self.line).unwrap_or_default();
+        let name = self.file_name_from_diff_line(&self.line);
         self.minus_file.clone_from(&name);
         self.plus_file.clone_from(&name);
         self.minus_file_event = FileEvent::Change;
